@@ -596,3 +596,21 @@ def replay_inert(p):
     if o[0] == "raise" and o[1] not in ("ExperimentConditionalFailedError",):
         problems.append("compiling/evaluating raised %s" % o[1])
     return {"reproduced": bool(problems), "expected": "literal is inert data", "observed": "; ".join(problems) or show(o)}
+
+
+@register("call_history")
+def replay_call_history(p):
+    """Each call of a sequence on ONE evaluator must return what a fresh evaluator returns for the same fields."""
+    from pyab_experiment.experiment_evaluator import ExperimentEvaluator
+    calls = [{k: dec(v) for k, v in c.items()} for c in p["calls"]]
+    shared = ExperimentEvaluator(p["text"])
+    problems = []
+    for order in (calls, list(reversed(calls))):
+        shared = ExperimentEvaluator(p["text"])
+        for c in order:
+            got = outcome_of(lambda: shared(**c))
+            want = outcome_of(lambda: ExperimentEvaluator(p["text"])(**c))
+            if got[:2] != want[:2]:
+                problems.append("after earlier calls, %r returns %s; a fresh evaluator returns %s" % (c, show(got), show(want)))
+    return {"reproduced": bool(problems), "expected": "no call changes the result of a later call",
+            "observed": "; ".join(problems[:2]) or "all calls agree with fresh evaluators"}
